@@ -255,6 +255,39 @@ func c01Scope() []string {
 		c := strings.ReplaceAll(pos, "%Q", "label $l | (5, break $l, 6)")
 		out = append(out, "[label $l | (1, (("+c+") | ., break $l), 2)]", "[label $l | (1, break $l) | "+c+"]", "[label $l | ("+c+") | label $l | (., break $l, 7)]", "[label $l | label $m | ("+c+"), break $m, 8]")
 	}
+	// sibling positions of one construct: what is introduced in one part must be invisible in the parts next to it
+	siblings := []string{
+		"if %Q then %A else %A end", "if (%Q) == 1 then %A else %A end", "if true then %Q else %A end", "if false then %A elif %Q then %A else %A end", "if false then %A elif true then %Q else %A end", "if false then %Q elif false then %A else %A end",
+		"reduce (%Q) as $r (%A; %A)", "reduce 1 as $r (%Q; %A)", "reduce 1 as $r (%A; %Q) | ., %A", "foreach (%Q) as $r (%A; %A; %A)", "foreach 1 as $r (%Q; %A; %A)", "foreach 1 as $r (%A; %Q; %A)", "foreach 1 as $r (%A; %A; %Q) | ., %A",
+		"{a: (%Q), b: %A}", "{b: %A, a: (%Q)}", "{(%Q | tostring): %A}", "{\"k\\(%Q)\": %A}", "[(%Q), %A]", "[%A, (%Q)]", "\"\\(%Q) \\(%A)\"", "\"\\(%A) \\(%Q)\"", ".[(%Q | numbers):(%A | numbers)]?, %A", "[.[(%A | numbers):(%Q | numbers)]?, %A]",
+		"def w(p; q): [p, q]; w(%Q; %A)", "def w(p; q): [p, q]; w(%A; %Q)", "def w($p; $q): [$p, $q]; w(%Q; %A)", "[limit(%Q | numbers; %A)]", "try (%Q) catch %A", "try error(\"e\") catch (%Q) | ., %A", "try error(%Q) catch %A",
+		". as {(%Q | tostring): $r} | %A", ". as [$r] ?// {(%Q | tostring): $r} | %A", "(%Q) as $r | %A", "(%Q) as [$r] ?// $r | %A", "[(%Q) // %A, %A]", "[(null | %Q | select(false)) // %A]", "(%Q) + %A", "[%A + (%Q | tostring)]?",
+		"(label $z | %Q, %A)", "[path(%Q | empty), %A]", "(.a | %Q | select(false)) = %A", ".a |= (%Q) | %A", "(%Q) as $r | (%Q) as $s | %A", "[(%Q), %A] | (%Q), %A", "[(%Q) | %A]", "first(%Q, %A), last(%Q, %A)",
+		"getpath([%Q | strings]), %A", "[range(%Q | numbers; 3)], %A", "select(%Q) | %A", "recurse(%Q | empty) | %A", "[.[]? | (%Q), %A]", "with_entries((%Q | empty), .)? | %A", "map((%Q), %A)?", "(%Q | not), (%A | not)", "-(%Q | numbers), %A",
+	}
+	for _, sib := range siblings {
+		for _, pr := range probes {
+			out = append(out, pr.outer+"["+strings.ReplaceAll(strings.ReplaceAll(sib, "%Q", pr.inner), "%A", pr.after)+"]")
+		}
+	}
+	// filter parameters resumed after the function body went on: arguments with several outputs (closures that leave
+	// forks behind) x bodies that keep using values bound before / between / after the calls of the parameter
+	bodies := []string{"(. + g) | (. * 2)", "g as $x | (. + $x) | . * 2", "[g] | length", ". as $a | g | . + $a", "(g, g) | . + 1", ". + g | . as $y | $y * 2", "(. + g) as $x | ($x | . * 2) + $x", "reduce g as $x (.; . + $x) | . * 2",
+		"g | (. as $p | $p + 1) | (. as $q | $q * 2)", "(. as $a | g + $a) | (. as $b | $b * 2)", ". as $a | (g | . + $a) as $b | [$a, $b] | add", "(g | . * 2) as $x | (g | . + 1) as $y | $x + $y", "[g as $x | $x + .] | add",
+		"def h: . * 2; (. + g) | h", "def h(k): k + 1; h(g) | . * 2", "label $l | (g | if . > 1 then ., break $l else . end) | . + 100", "first(g) + last(g)", "[limit(2; g)] | add + .", "(g | select(. > 1)) // 0 | . + 1", "try (g | if . == 2 then error(\"two\") else . end) catch 20 | . + .",
+		". as [$a] ?// $a | g + ($a | numbers)", "{a: g, b: .} | .a + .b", "\"\\(g)-\\(.)\"", "[., g] | (.[0] as $p | .[1] as $q | $p * 10 + $q)", "foreach g as $x (0; . + $x; [$x, .]) | add", "if g > 1 then . + 1 else . - 1 end | . * 3", "(g, 5) as $x | (g, 7) as $y | $x * 10 + $y"}
+	gargs := []string{"1, 2", "(1, 2, 3)", ".[]?", "range(3)", "(1, (2 | ., .))", "empty", "(1, error(\"x\"))?", "1"}
+	callers := []string{"[f(%G)]", "[f(%G) | f(%G)]", "[limit(3; f(%G))]", "[f(f(%G))]", "first(f(%G))", "[.[]? | numbers | f(%G)]", "[f(%G), f(%G)]", "[f(%G) as $r | $r, f(%G)]", "reduce f(%G) as $r (0; . + $r)", "[label $o | f(%G) | ., (select(. > 20) | break $o)]"}
+	for bi, b := range bodies {
+		for gi, ga := range gargs {
+			for ci, cl := range callers {
+				if (bi+gi+ci)%2 == 0 {
+					out = append(out, "def f(g): "+b+"; 10 as $k | "+strings.ReplaceAll(cl, "%G", ga))
+				}
+			}
+		}
+		out = append(out, "def f(g; h): ("+strings.ReplaceAll(b, "g", "(g + h)")+"); [f(1, 2; 10, 20)]", "def f(g): def i(h): "+strings.ReplaceAll(b, "g", "h")+"; i(g) + i(g); [f(1, 2)]")
+	}
 	// siblings and re-entry
 	out = append(out, "[label $x | (1, break $x) | label $x | .]", "[label $x | (1, 2) | label $x | (., break $x)]", "[label $x | (label $x | 1, break $x, 2), 3, break $x, 4]", "[(label $x | 1, break $x), (label $x | 2, break $x)]",
 		"[label $x | (1, 2) | (label $x | ., break $x), (. + 10 | if . > 11 then break $x else . end)]", "[.[]? | label $x | (., break $x)]", "[label $x | def f: break $x; (label $x | 1, f, 2), 3]", "[label $x | def f: label $x | (1, break $x, 2); f, f, break $x]",
